@@ -60,6 +60,10 @@ type Spec struct {
 	// ExtraDecl are raw declaration lines rendered before the token lines (earlier, partial
 	// declarations of tokens that are declared completely later)
 	ExtraDecl []string
+	// SameActions: the actions log the driver's own rule number (verifReduce(reduceIndex)) so
+	// that several rules can have byte-identical action text; needs yaccgo's rule numbers to
+	// be the file order (checked by the driver on the native dump)
+	SameActions bool
 }
 
 func (s *Spec) HasTag(t string) bool {
@@ -169,7 +173,11 @@ func (s *Spec) Finish() *Spec {
 func (s *Spec) Action(k int, ts bool) string {
 	r := s.Rules[k-1]
 	var sb strings.Builder
-	fmt.Fprintf(&sb, "{ verifReduce(%d)", k)
+	if s.SameActions {
+		sb.WriteString("{ verifReduce(reduceIndex)")
+	} else {
+		fmt.Fprintf(&sb, "{ verifReduce(%d)", k)
+	}
 	if r.ActExtra != "" {
 		sb.WriteString("; " + r.ActExtra)
 	}
@@ -619,14 +627,14 @@ func Fixed() []*Spec {
 	// action bodies with a quote character literal (twice, so that the quotes would pair up),
 	// a string, nested blocks and an escaped quote
 	{
-		sp := &Spec{Name: "action_text", Tags: []string{"lalr1"},
+		sp := &Spec{Name: "action_text", Tags: []string{"lalr1", "go-only-actions"},
 			Toks:  []Tok{named("NUM", 370), named("CHR", 371), lit('-')},
 			Rules: rules("L: I | L I", "I: NUM | '-' CHR | CHR"),
 			NTTag: allVal("L", "I")}
-		sp.Rules[0].ActExtra = `if $1 == '"' { verifReduce(0) }`
+		sp.Rules[0].ActExtra = `if $1 == '"' { _ = 0 }`
 		sp.Rules[1].ActExtra = `s := "a b"; _ = s`
 		sp.Rules[2].ActExtra = `{ { _ = 0 } }`
-		sp.Rules[3].ActExtra = `if $2 == '"' { verifReduce(0) }`
+		sp.Rules[3].ActExtra = `if $2 == '"' { _ = 1 }`
 		sp.Rules[4].ActExtra = `c := '\''; _ = c`
 		add(sp)
 	}
@@ -659,6 +667,23 @@ func Fixed() []*Spec {
 		Prec:  []PrecLine{{"left", []string{"'+'"}}, {"left", []string{"'%'"}}},
 		Rules: rules("E: E '%' E | E '+' E | NUM"),
 		NTTag: allVal("E")})
+	// two rules with byte-identical action text over differently tagged symbols (the action
+	// logs the driver's own rule number)
+	{
+		sp := &Spec{Name: "same_actions", Tags: []string{"lalr1", "same-actions"}, SameActions: true,
+			Toks:  []Tok{named("NUM", 395), {Name: "NAME", Num: 396, Tag: "alt"}, lit('+')},
+			Rules: rules("S: num '+' name", "num: NUM", "name: NAME"),
+			NTTag: map[string]string{"S": "val", "num": "val", "name": "alt"}}
+		sp.Rules[1].K0, sp.Rules[1].Coef = 7, []int{2}
+		sp.Rules[2].K0, sp.Rules[2].Coef = 7, []int{2}
+		add(sp)
+	}
+	// a state with two complete items, the earlier rule with a precedence (%prec), the later
+	// one without, the later one in a shift/reduce conflict with a token that has a level
+	add(&Spec{Name: "stale_prec", Tags: []string{"conflict-sr"},
+		Toks:  []Tok{lit('a'), lit('c'), lit('d'), lit('e'), {Char: '+', Decl: "prec"}},
+		Prec:  []PrecLine{{"left", []string{"'+'"}}},
+		Rules: rules("top: 'a' item 'd' | 'a' list 'e'", "item: 'c' %prec '+'", "list: pair | list '+' pair", "pair: 'c' | 'c' '+' 'c'")})
 	// names that differ only in case; automatic token numbers
 	add(&Spec{Name: "case_names", Tags: []string{"lalr1"},
 		Toks:  []Tok{named("NUM", 0), named("List", 0), lit(',')},
